@@ -4,12 +4,46 @@ NOTES = ("Static analysis only. Every check parses /repo's working tree with Pyt
          "regular-expression syntax trees) and never imports or runs pycparser. Exit 0 ok / 1 VIOLATION / 2 ANALYSIS-ERROR "
          "(fail closed). Known genuine defects are listed in known_findings.json and printed as KNOWN-FINDING lines.")
 ENGINES = [
-    {"name": "E0 srcmodel", "path": "sa/srcmodel.py", "serves_properties": ["C13"],
+    {"name": "E0 srcmodel", "path": "sa/srcmodel.py", "serves_properties": ["C12", "C13", "C14", "C15", "C17"],
      "kind_free_text": "ast-based program model, module-level constant folder"},
-    {"name": "E5 stateflow", "path": "sa/stateflow.py", "serves_properties": ["C13"],
+    {"name": "E5 stateflow", "path": "sa/stateflow.py", "serves_properties": ["C12", "C13", "C17"],
      "kind_free_text": "write-effect / ownership / alias analysis"},
+    {"name": "E5b taint", "path": "sa/taint.py", "serves_properties": ["C17"],
+     "kind_free_text": "forward information-flow analysis with tuple/collection shapes and interprocedural summaries"},
+    {"name": "E4 astspec", "path": "sa/astspec.py", "serves_properties": ["C14", "C15"],
+     "kind_free_text": "AST specification reader and node-class shape extractor"},
 ]
 CHECKS = [
+    {"id": "C12", "engine": "E0+E5", "level": "other",
+     "text": "Reset-dominance and effect analysis: the computed inventory of per-parse instance state (attributes written or mutated "
+             "outside __init__) is re-initialised with fresh values on every path of CParser.parse / CLexer.input before parsing starts; "
+             "CGenerator.indent_level is balanced on every normal path of every method; no AST node lives in shared state; no "
+             "non-deterministic input. Decides 'no state survives a call'; equality of two concrete results is not executed.",
+     "design_ref": "DESIGN.md section 3, C12",
+     "note": "Assumes CPython determinism; a failed parse may leave garbage that the next call overwrites (the rule relies on re-initialisation, not clean-up).",
+     "technique": "reset-dominance (must-assign) + write-effect inventory + structured balance analysis (custom ast checker)"},
+    {"id": "C14", "engine": "E4", "level": "proof",
+     "text": "Exhaustive obligation table: each of the 49 classes of _c_ast.cfg x (existence, __init__, __slots__, attr_names, children(), "
+             "__iter__, no extra members) is compared with the class shape extracted from c_ast.py; plus template-structure obligations on "
+             "_ast_gen.py and dispatch / recursion-shape obligations on NodeVisitor.visit, generic_visit and Node.show. Visit counts on concrete "
+             "trees follow by induction on the tree.",
+     "design_ref": "DESIGN.md section 3, C14",
+     "note": "Trusted: the checker's independent reader of _c_ast.cfg; emission forms outside the recognised templates are reported as ANALYSIS-ERROR, not as a pass.",
+     "technique": "specification-vs-class-shape comparison over the ast (exhaustive table of obligations)"},
+    {"id": "C15", "engine": "E4", "level": "other",
+     "text": "Protocol-precondition analysis: the slice of __slots__ that Node.__repr__ prints is matched against every class's __slots__ and __init__ "
+             "(eval(repr(x)) can rebuild x); default slot-based copy/pickle applies to every node class (no custom hooks, well-formed slots, module-level "
+             "classes, all slots initialised) and Coord stays a plain module-level dataclass. Byte-level behaviour of pickle/eval/deepcopy is delegated to the builtins.",
+     "design_ref": "DESIGN.md section 3, C15",
+     "note": "Trusted: builtin repr/eval/pickle/copy implement their documented protocols; string contents are delegated to repr().",
+     "technique": "class-shape / protocol-hook analysis over the ast"},
+    {"id": "C17", "engine": "E5b", "level": "other",
+     "text": "Non-interference analysis: position information (token line/column, lexer line/file bookkeeping, Coord objects, .coord reads) is shown to flow "
+             "only into coord arguments, .coord stores, token position fields and error messages - never into a branch condition, another node field, the "
+             "scan cursor or generated text; the lexer's white-space / newline / #line paths write only cursor and position state.",
+     "design_ref": "DESIGN.md section 3, C17",
+     "note": "Flow-insensitive per function (a variable is position-dependent if any assignment to it is); #pragma text is line-oriented and outside the quantifier.",
+     "technique": "forward information-flow (taint) analysis with interprocedural summaries + write-effect check of layout paths"},
     {"id": "C13", "engine": "E0+E5", "level": "proof",
      "text": "Ownership proof: every write effect of every function in the package is shown not to reach module-level, "
              "class-level, default-argument or imported-module state; with per-instance state only, no schedule of "
